@@ -5,6 +5,7 @@ package main
 import (
 	"math"
 	"sort"
+	"strings"
 
 	"github.com/Azbesciak/RealDecisionMaker/lib/logic/preference-func/electreIII"
 	"github.com/Azbesciak/RealDecisionMaker/lib/model"
@@ -183,6 +184,9 @@ func genEProblem(r *Rng, maxAlt, maxCrit int, inDomain bool) *eProblem {
 			w[c.Id] = genValues(r, vmode)
 		}
 		p.alts = append(p.alts, model.AlternativeWithCriteria{Id: id, Criteria: w})
+	}
+	if na >= 2 && r.chance(0.06) { // ids that differ only in letter case are different alternatives
+		p.alts[na-1].Id = strings.ToUpper(p.alts[0].Id)
 	}
 	// identical alternatives, and alternatives differing on one criterion only
 	for k := r.Intn(3); k > 0 && na >= 2; k-- {
